@@ -1007,6 +1007,14 @@ Section Machine.
        _cu_offsets_map / _cu_cache come AFTER the parse, so nothing but the cursor has changed *)
     (* the same call as DIEAt: CompileUnit.get_DIE_from_refaddr's dwarf_assert on the range raises DWARFError *)
     | DIEAtOutside u o => d <- the_DIE u o ;; die_answer d
+    (* LineProgram.get_entries: `if self._decoded_entries is None: self._decoded_entries = self._decode_line_program()`;
+       the decoder raises before the assignment, so the memo stays None and a retry decodes (and fails) again *)
+    | LineEntriesFailing u e c =>
+        cu <- get_CU_at u ;; k <- line_program_for_CU cu ;;
+        match k with
+        | None => ret ANone
+        | Some _ => (if 0 <=? c then seek S_LINE c else ret tt) ;;; fail e
+        end
     | CUAtFailing off e c => (if 0 <=? c then seek S_INFO c else ret tt) ;;; fail e
     end.
 
